@@ -131,7 +131,7 @@ func filterKey() *rapid.Generator[[]byte] {
 		case 1, 2:
 			return []byte(rapid.SampledFrom(filterPrefixes).Draw(t, "ext") + rapid.StringMatching(`[a-c:{}]{0,4}`).Draw(t, "tail"))
 		case 3:
-			return []byte(rapid.SampledFrom([]string{"redis-shake-checkpoint", "redis-shake-checkpoint-abcd", "redis-shake-checkpoinx", "redis-shake-checkpoin", "c", "", "zz{a}", "{}{a}", "a{}{b}c", "{}k{zz}", "{a}{b}"}).Draw(t, "special"))
+			return []byte(rapid.SampledFrom([]string{"redis-shake-checkpoint", "redis-shake-checkpoint-abcd", "redis-shake-checkpoinx", "redis-shake-checkpoin", "c", "", "zz{a}", "{}{a}", "a{}{b}c", "{}k{zz}", "{a}{b}", "lua"}).Draw(t, "special"))
 		default:
 			return []byte(rapid.StringMatching(`[a-dk:{}]{0,5}`).Draw(t, "free"))
 		}
